@@ -52,6 +52,17 @@ type GenConfig struct {
 	// same key in devDependencies. Extra advisories then hang on that package. Off (0) in
 	// DefaultConfig; when off nothing is drawn for it.
 	DevShared int
+	// MavenFlavours (Maven): this percentage of the packages publishes versions with the
+	// qualifier flavours the ecosystem really has (see genVersionsStyled): -SNAPSHOT next to or
+	// instead of releases, -M1/-M2/-rc1 before releases, .Final releases, -jre releases.
+	// Requirements (of the manifest and of package versions) and advisories are drawn over the
+	// published versions as before, so the flavoured versions also are what is required and
+	// resolved. Off (0) in DefaultConfig; when off nothing is drawn for it.
+	MavenFlavours int
+	// PomChains (Maven): this percentage of the manifests gets a chain of one or two local
+	// parent poms (Manifest.Chain) and its requirements are distributed over the files of the
+	// chain. Off (0) in DefaultConfig; when off nothing is drawn for it.
+	PomChains int
 
 	// set by GenScenario for GenVulns
 	directs     []string       // packages of the manifest's direct requirements
@@ -191,7 +202,7 @@ func genReq(t *rapid.T, cfg GenConfig, vs []Ver, k int, hasLatest bool, label st
 		case form < 95:
 			return "[" + vstr + ",)"
 		default:
-			if v.Pre == 0 && (v.Major > 0 || v.Minor > 0 || v.Patch > 0) {
+			if v.IsRelease() && (v.Major > 0 || v.Minor > 0 || v.Patch > 0) {
 				return "(," + vstr + "]"
 			}
 			return vstr
@@ -247,6 +258,10 @@ func GenUniverse(t *rapid.T, cfg GenConfig) Universe {
 			} else if cfg.DottedNames && pct(t, lbl+".dotted") < 15 {
 				name += ".io"
 			}
+		}
+		if cfg.System == Maven && cfg.MavenFlavours > 0 && pct(t, lbl+".flavoured") < cfg.MavenFlavours {
+			pkgs[i] = genPkg{name: name, vers: genVersionsStyled(t, cfg.MaxVersions, lbl), latest: -1}
+			continue
 		}
 		pkgs[i] = genPkg{name: name, vers: genVersions(t, cfg.System, cfg.MaxVersions, lbl), latest: -1}
 		if cfg.System == NPM && cfg.Tags && pct(t, lbl+".tag?") < 70 {
@@ -712,7 +727,11 @@ func GenScenario(t *rapid.T, cfg GenConfig) Scenario {
 			}
 		}
 	}
-	return Scenario{Universe: u, Manifest: m, Vulns: GenVulns(t, ix, cfg), Levels: GenLevels(t, ix)}
+	s := Scenario{Universe: u, Manifest: m, Vulns: GenVulns(t, ix, cfg), Levels: GenLevels(t, ix)}
+	if cfg.System == Maven && cfg.PomChains > 0 && Pct(t, "pomchain?") < cfg.PomChains {
+		genPomChain(t, &s.Manifest)
+	}
+	return s
 }
 
 // Strategy is the remediation strategy FixVulns supports for the scenario's manifest.
